@@ -164,6 +164,9 @@ impl PathSliceList {
                                 write!(w, r#"2,{},{}"#, gen_lit_str(path), gen_lit_str(mod_name))?
                             }
                         },
+                        Some(PathSlice::Condition(..)) => {
+                            need_comma = false;
+                        }
                         _ => return Ok(false),
                     }
                 }
@@ -195,14 +198,18 @@ impl PathSliceList {
                 write!(w, r#":"#)?;
                 false_br.write_lvalue_path(w, scopes, model)?;
             } else {
-                write!(w, r#"{}?"#, cond)?;
-                if true_br.write_lvalue_path(w, scopes, model)?.is_some() {
+                write!(w, r#"{}?("#, cond)?;
+                let has_path = true_br.write_lvalue_path(w, scopes, model)?.is_some();
+                write!(w, r#")"#)?;
+                if has_path {
                     write!(w, r#".concat("#)?;
                     br(w)?;
                     write!(w, r#")"#)?;
                 }
-                write!(w, r#":"#)?;
-                if false_br.write_lvalue_path(w, scopes, model)?.is_some() {
+                write!(w, r#":("#)?;
+                let has_path = false_br.write_lvalue_path(w, scopes, model)?.is_some();
+                write!(w, r#")"#)?;
+                if has_path {
                     write!(w, r#".concat("#)?;
                     br(w)?;
                     write!(w, r#")"#)?;
